@@ -102,7 +102,7 @@ func (w *World) lazyCheck(op *Op) {
 			if r.API%2 != 0 || r.Kind != IORead {
 				continue
 			}
-			reads++
+			reads += 1 + r.Rep
 			if r.Off < rootOff {
 				w.failf("open-read-outside-root", "NewStore read [%d,%d), which lies before the last root record at %d: opening must read only that record", r.Off, r.Off+int64(r.Len), rootOff)
 			}
@@ -119,7 +119,7 @@ func (w *World) lazyCheck(op *Op) {
 			if r.API%2 != 0 || r.Kind != IORead {
 				continue
 			}
-			if rg, hit := l.hits(r.Off, r.Len); hit {
+			if rg, hit := l.hits(r.Off, r.Len+r.Rep); hit {
 				w.failf("value-read-by-key-only-op", "%s read file bytes [%d,%d), which intersect the value bytes [%d,%d) of a stored item", op.String(), r.Off, r.Off+int64(r.Len), rg[0], rg[1])
 			}
 			w.ev["lazy_reads_checked"]++
